@@ -3,4 +3,4 @@
 Require Extraction.
 Require Import ExtrOcamlBasic.
 From WW Require Import Model.Entry.
-Extraction "model.ml" entry_meta.
+Extraction "model.ml" entry_meta entry_machine mk_config.
